@@ -2,6 +2,7 @@ mod api;
 mod deviate;
 mod apigen;
 mod handle;
+mod locks;
 mod mutate;
 mod names;
 mod raw;
@@ -96,6 +97,15 @@ fn main() {
         "raw" => raw::run(arg(&args, "--list").unwrap(), arg(&args, "--ops").unwrap(), arg(&args, "--impl").unwrap()),
         "mutate" => mutate::run(arg_u64(&args, "--seed", 1), arg(&args, "--bases").unwrap(), arg(&args, "--outdir").unwrap(), arg_u64(&args, "--count", 100), arg(&args, "--list").unwrap()),
         "deviate" => deviate::run(arg_u64(&args, "--seed", 1), arg(&args, "--bases").unwrap(), arg(&args, "--outdir").unwrap(), arg_u64(&args, "--combos", 3), arg(&args, "--list").unwrap()),
+        "locks" => {
+            if args.iter().any(|a| a == "--steer") {
+                locks::steer();
+            } else if args.iter().any(|a| a == "--stress") {
+                locks::stress(arg_u64(&args, "--readers", 3) as usize, arg_u64(&args, "--millis", 1000));
+            } else {
+                locks::traces(arg(&args, "--ops").unwrap(), arg(&args, "--impl").unwrap());
+            }
+        }
         "upper-dump" => names::upper_dump(arg(&args, "--out").unwrap()),
         "names" => {
             let ops = arg(&args, "--ops").unwrap();
